@@ -215,3 +215,52 @@ def col_byname(ctx, modules=None):
                                'another order is read as the wrong signals' % (f.qualname, k[:30],
                                                                                p, bad[:60]))
     ctx.ob('COL-BYNAME', True, None, '%d documented table parameters examined' % n, key='scanned')
+
+
+def len_dispatch(ctx, modules=('transform', 'earth', 'util', 'error_model')):
+    """FORM-LEN - the functions of these modules take one item (a triple, a 3x3 matrix) or a
+    stack of items and tell the two apart by the NUMBER OF DIMENSIONS.  A test of the length of
+    the leading axis against a constant (`len(rph) != 3`, `x.shape[0] == 3`) cannot: a stack of
+    exactly that many items has the same length as a single item, and is then read transposed /
+    as one item.  On the pinned tree no such test exists."""
+    ctx.rule('FORM-LEN', 'single items and stacks are told apart by ndim, never by comparing the '
+             'length of the leading axis with a constant')
+    n = 0
+    for f in ctx.repo.all_functions():
+        short = f.module.name.split('.')[-1]
+        if short not in modules or '.tests' in f.module.name:
+            continue
+        n += 1
+        for c in ast.walk(f.node):
+            if not (isinstance(c, ast.Compare) and len(c.ops) == 1 and
+                    isinstance(c.ops[0], (ast.Eq, ast.NotEq)) and
+                    isinstance(c.comparators[0], ast.Constant) and
+                    isinstance(c.comparators[0].value, int) and
+                    not isinstance(c.comparators[0].value, bool) and
+                    c.comparators[0].value >= 2):
+                continue
+            l_ = c.left
+            is_len = isinstance(l_, ast.Call) and isinstance(l_.func, ast.Name) and \
+                l_.func.id == 'len' and len(l_.args) == 1
+            is_shape0 = isinstance(l_, ast.Subscript) and isinstance(l_.value, ast.Attribute) and \
+                l_.value.attr == 'shape' and isinstance(l_.slice, ast.Constant) and \
+                l_.slice.value == 0
+            if not (is_len or is_shape0):
+                continue
+            # only tests that steer the computation (an `if` / conditional expression), not
+            # argument validation that raises
+            par = [x for x in ast.walk(f.node) if isinstance(x, (ast.If, ast.IfExp)) and
+                   any(y is c for y in ast.walk(x.test))]
+            if not par or all(isinstance(x, ast.If) and x.body and
+                              isinstance(x.body[0], ast.Raise) for x in par):
+                continue
+            ctx.ob('FORM-LEN', False, None, 'forms told apart by ndim', f=f, node=c,
+                   key='%s:%s' % (f.qualname, norm_text(c)[:40]),
+                   why='%s branches on `%s`: a stack of exactly %d items has the same leading '
+                       'length as a single item, so such a stack is taken for (or transposed '
+                       'like) a single one - the stacked form then disagrees with the items '
+                       'converted one by one' % (f.qualname, norm_text(c),
+                                                 c.comparators[0].value))
+    ctx.ob('FORM-LEN', True, None, '%d functions scanned' % n, key='scanned')
+    ctx.floor('FORM-LEN', n, 20, 'functions')
+
